@@ -27,6 +27,7 @@ mod t_facs;
 mod t_rsdp;
 mod t_sdt;
 mod t_misc;
+mod t_default;
 mod tcommon;
 
 use std::io::{BufRead, Write};
@@ -62,6 +63,7 @@ fn run_component(comp: u64, case: &Sx) -> Vec<Ev> {
         31 => t_sdt::run(case, &mut out),
         32 => t_misc::run(case, &mut out),
         40 | 41 => amlterm::run(comp, case, &mut out),
+        200 => out.extend(t_default::run(case)),
         _ => panic!("harness: unknown component {}", comp),
     }));
     if r.is_err() {
@@ -371,6 +373,8 @@ fn main() {
                     amlterm::gen_c06(tier, &mut rng, &mut emit);
                     amlterm::gen_c10("quick", &mut rng, &mut emit);
                     emit.redirect14 = false;
+                    // structures obtained from the derived Default instead of a constructor (harness-only comparisons)
+                    t_default::gen(tier, &mut rng, &mut emit);
                 }
                 1 | 2 | 3 | 4 | 5 | 11 | 12 | 13 => table_gens(prop, tier, &mut rng, &mut emit),
                 _ => panic!("harness: no generator for property {}", prop),
